@@ -213,6 +213,19 @@ CLAIMED["C16"] = (
     "Trusted: as C15; fake buses answer only frames the specification's tables mark as queries.",
     "DESIGN.md §5 C16")
 
+CLAIMED["C17"] = (
+    "model_checking",
+    "property-level TLA+ spec Recovery (no hang, only CommunicationError / transparent retry, correct pairing after "
+    "retries, lock free, 'failed' after the limit, attempts spaced by the interval, 300 further sends succeed) "
+    "evaluated by TLC on fault scenarios replayed on the real drivers under the virtual event loop",
+    "Loss by EOF / read error / write error injected after the k-th write or report, at a time, during the handshake, "
+    "repeatedly; reconnect limits None/0/1/3; 0-3 callers with exceptions on/off; cancellation of a caller at every "
+    "write/report count followed by 300 sends (sequence numbers wrap); serial gateway silent at confirmation or answer.",
+    "Trusted: as C15. A send issued after the driver has reported 'failed' is not judged (the application must "
+    "reconnect); hasseb answer pairing after a cancelled query is only judged when the stale answer is delivered "
+    "before the next write.",
+    "DESIGN.md §5 C17")
+
 NOT_YET = {}
 
 
